@@ -13,6 +13,18 @@ COMPONENTS = {
 }
 
 PROPS = {
+    "C13": {
+        "level": "exploration",
+        "rule": "run = seeded world (3 helpers, optionally x3 shards), 1-5 logical channels (helper and shard channels, shared and distinct steps, "
+                "message sizes {1,2,3,4,8,14,32}, totals 1..64 or indeterminate, active {2,4,16}, read sizes 1..4096) each driven by its own "
+                "sender/receiver tasks through the real seq_join window; non-trivial iff >=1 multi-choice decision and >=2 records; "
+                "distinct by (world shape, schedule digest)",
+        "scenarios": [
+            {"name": "c13_gw", "quick": 12000, "thorough": 600000, "offset": 1, "chunk": 400},
+        ],
+        "expected_probes": ["close_checks", "shard_streams_ended"],
+        "components_real": ["helpers::Gateway, gateway::{send,receive,transport}, in-memory MPC + shard transports, StreamCollection, OrderingSender, UnorderedReceiver, seq_join"],
+    },
     "C14": {
         "level": "exploration",
         "rule": "run = seeded (message size, capacity, read size, record count, writer/receiver task layout, chunking, policy); "
@@ -36,6 +48,12 @@ NOT_APPLICABLE = {
 }
 
 MANIFEST_TEXT = {
+    "C13": {
+        "text": "Seeded exploration of real Gateways over the repo's in-memory MPC and shard networks: every channel endpoint is a scheduler-controlled task, records are driven through the real seq_join window with seeded yield points and request orders, batching knobs (active work, read size, message size, determinate/indeterminate totals) are drawn per run. Oracle: each receive(i) returns the attributable payload of (channel, i), no foreign payload ever appears, receive(total)/send(total) fail, shard streams end exactly after total, and no deadlock/step-cap occurs while the window is kept full. Sampling, not proof.",
+        "design_ref": "DESIGN.md section 4, C13",
+        "note": "window discipline as the protocols use it (seq_join(active)); under-full windows legitimately stall and are not judged; SeqCst atomics; in-memory transport",
+        "technique": "deterministic simulation: seeded schedule + batching-knob search over the real gateway/transport stack, attributable payload oracle",
+    },
     "C14": {
         "text": "Seeded exploration of the real CircularBuf / OrderingSender / UnorderedReceiver under a controlled scheduler: writer, closer, reader, receiver and network tasks are interleaved by uniform, sticky, PCT and starvation policies; the emitted byte stream, chunk sizes and every recv(i) are compared with a sequential byte-queue model and every deadlock or step-cap is a lost wake-up. Sampling, not proof.",
         "design_ref": "DESIGN.md section 4, C14",
